@@ -380,6 +380,12 @@ def maps(lie):
         out["gln_adjoint[%d]" % n] = (lie.gln_adjoint, ("gl", n), "gln_adjoint")
     for n in range(2, 6):
         out["sln_adjoint[%d]" % n] = (lie.sln_adjoint, ("sl", n), "sln_adjoint")
+    # Ad on sl(n) is defined for every invertible g (Representation.sln_adjoint
+    # feeds it GL(n) matrices): X -> g X g^-1.  Seeded change C17-r4-3: the
+    # adjugate used as inverse for n = 2, right only when det g = 1.
+    for n in range(2, 5):
+        out["sln_adjoint[%d]/gl" % n] = (lie.sln_adjoint, ("gl", n), "sln_adjoint")
+    out["sln_adjoint[2]/glc"] = (lie.sln_adjoint, ("glc", 2), "sln_adjoint")
     for n in range(1, 5):
         out["slc_to_slr[%d]" % n] = (lie.slc_to_slr, ("glc", n), "slc_to_slr")
     for n, d in ((1, 2), (2, 3), (2, 5), (3, 3), (3, 6), (4, 5)):
@@ -864,6 +870,61 @@ def wl_inverse(run, rng, idx):
         mon.judge(abs(abs(float(np.linalg.det(l))) - 1.0), tolp, "inverse/o_to_pgl/det",
                   "o_to_pgl(S) does not have determinant +-1", case)
         run.note_class("inverse-product", fam)
+    # the same inverse with an explicitly given form of signature (2,1): for
+    # J' = P^T J P the conjugates P^-1 S P of images S lie in O(J'), and
+    # o_to_pgl(., J') must again be a homomorphism up to sign into matrices of
+    # determinant one, conjugate to +-A (|trace| is kept); for J' a positive
+    # multiple of J it recovers +-A itself.  (Seeded change C17-r4-1: the inverse
+    # of the form-diagonalising matrix replaced by its transpose, invisible for
+    # forms with eigenvalues +-1.)  Generic A, B only (no zero-entry classes: F35).
+    if fam_is_generic(A) and fam_is_generic(B) and fam_is_generic(A @ B):
+        J = np.diag([-1.0, 1.0, 1.0])
+        fk = ["positive-multiple", "diagonal-scaling", "generic-congruence", "orthogonal-congruence"][idx % 4]
+        if fk == "positive-multiple":
+            Pm = np.eye(3) * float(np.exp(rng.uniform(np.log(0.3), np.log(4.0))))
+        elif fk == "diagonal-scaling":
+            Pm = np.diag(np.exp(rng.uniform(np.log(0.4), np.log(3.0), size=3)))
+        elif fk == "generic-congruence":
+            Pm = lr.rand_cond(rng, 3, 8.0) if hasattr(lr, "rand_cond") else None
+            if Pm is None:
+                q1, _ = np.linalg.qr(rng.normal(size=(3, 3)))
+                q2, _ = np.linalg.qr(rng.normal(size=(3, 3)))
+                Pm = q1 @ np.diag(np.exp(rng.uniform(np.log(0.5), np.log(3.0), size=3))) @ q2
+        else:
+            Pm, _ = np.linalg.qr(rng.normal(size=(3, 3)))
+        Jp = Pm.T @ J @ Pm
+        Jp = (Jp + Jp.T) / 2.0
+        Pi = np.linalg.inv(Pm)
+        kap = float(np.linalg.cond(Pm)) ** 2
+        SA = Pi @ lr.as_numeric(lie.sl2_to_so21(A)) @ Pm
+        SB = Pi @ lr.as_numeric(lie.sl2_to_so21(B)) @ Pm
+        case = {"A": A, "B": B, "family": fam, "form": Jp, "form_kind": fk}
+        run.current_case = case
+        tolf = 1e-7 * kap * max(1.0, float(norm2(SA)) * float(norm2(SB)))
+        try:
+            a = lr.as_numeric(lie.o_to_pgl(SA, Jp))
+            b = lr.as_numeric(lie.o_to_pgl(SB, Jp))
+            ab = lr.as_numeric(lie.o_to_pgl(SA @ SB, Jp))
+        except Exception as e:
+            mon.fail("inverse/o_to_pgl/explicit-form/exception:%s/%s" % (type(e).__name__, fk),
+                     "o_to_pgl(S, form) raised %s: %s" % (type(e).__name__, str(e)[:100]),
+                     case, tb=traceback.format_exc())
+            a = None
+        if a is not None:
+            mon.judge(lr.eq_up_to_sign(ab, a @ b), tolf,
+                      "inverse/o_to_pgl/explicit-form/not-multiplicative-up-to-sign/" + fk,
+                      "o_to_pgl(S_A S_B, J') != +- o_to_pgl(S_A, J') o_to_pgl(S_B, J')", case)
+            for X, x, nm in ((A, a, "A"), (B, b, "B")):
+                mon.judge(abs(abs(float(np.linalg.det(x))) - 1.0), tolf,
+                          "inverse/o_to_pgl/explicit-form/det/" + fk,
+                          "o_to_pgl(S, J') does not have determinant +-1", dict(case, which=nm))
+                mon.judge(abs(abs(float(np.trace(x))) - abs(float(np.trace(X)))), tolf * max(1.0, float(norm2(X))),
+                          "inverse/o_to_pgl/explicit-form/trace/" + fk,
+                          "|trace| of o_to_pgl(P^-1 S_A P, P^T J P) differs from |trace A|", dict(case, which=nm))
+                if fk == "positive-multiple":
+                    mon.judge(lr.eq_up_to_sign(x, X), tolf, "inverse/o_to_pgl/explicit-form/not-inverse/" + fk,
+                              "o_to_pgl(sl2_to_so21(A), c J) is not +-A", dict(case, which=nm))
+            run.note_class("inverse-explicit-form", fam, fk)
     if idx == 0:
         dg = run.monitor("o_to_pgl-stacked", deciding=False)
         try:
@@ -874,6 +935,13 @@ def wl_inverse(run, rng, idx):
         dg.skip("no array claim for o_to_pgl")
     if idx < 2:
         run.sample({"workload": "inverse", "A": A, "family": fam})
+
+
+def fam_is_generic(X):
+    """no entry of the 2x2 matrix near zero relative to its size (keeps the
+    explicit-form checks away from F35's zero-anchor mechanism)."""
+    X = np.asarray(X, dtype=float)
+    return bool(np.min(np.abs(X)) > 0.05 * np.max(np.abs(X)))
 
 
 WORKLOADS = [
